@@ -8,16 +8,17 @@
 static const char *cls;
 static spif_obj_t S[2];                 /* slots A, B */
 static int ev_src[2], ev_sep[2];        /* tok: (src, sep) ids at the time of the last eval of that slot */
-static char invmsg[256];
+static char invmsg[256], invmsg2[300];
 
 /* per-class text tables; index = id (1-based); id order = text order */
 static const char *T_PAIR[] = {NULL, "1", "2"};
 static const char *T_TOKSRC[] = {NULL, "a b 'c d'", "x:y"};
 static const char *T_TOKSEP[] = {NULL, ":", ";"};
-static const char *T_URL[] = {NULL, "h2", "http://u:pw@h1:80/p?q"};
-static const char *T_URLHOST_PARSED[] = {NULL, "h2", "h1"};
-static const char *T_HOSTSET[] = {NULL, "zz1", "zz2"};
-static const char *T_RE[] = {NULL, "a", "b+"};
+/* url and regexp: text 1 is blanks only (the parent class's trim empties it) */
+static const char *T_URL[] = {NULL, "  ", "h2", "http://u:pw@h1:80/p?q"};
+static const char *T_URLHOST_PARSED[] = {NULL, "  ", "h2", "h1"};
+static const char *T_HOSTSET[] = {NULL, "zz1", "zz2", "zz3"};
+static const char *T_RE[] = {NULL, "  ", "a", "b+"};
 static const char *T_SUBJ[] = {NULL, "a", "bb", "A", "c"};
 static const int TOKCOUNT[3][3] = {{0, 0, 0}, {3, 1, 1}, {1, 2, 1}};   /* [src][sep] */
 
@@ -48,7 +49,10 @@ static const char *check_type(spif_obj_t o) {
 static const char *project(int k, vh_sb *out) {
     spif_obj_t o = S[k];
     long p = 0, q = 0, r = 0;
+    const char *ti;
     if (SPIF_OBJ_ISNULL(o)) { sb_puts(out, "{live=F,p=0,q=0,r=0}"); return NULL; }
+    /* whatever was done to it, through whichever entry point: the object is still an object of its class */
+    if ((ti = check_type(o))) { snprintf(invmsg2, sizeof(invmsg2), "%s:%s", k ? "b" : "a", ti); return invmsg2; }
     if (is("objpair")) {
         spif_objpair_t x = SPIF_OBJPAIR(o);
         p = id_of(strtext(SPIF_STR(x->key)), T_PAIR, 2);
@@ -68,9 +72,9 @@ static const char *project(int k, vh_sb *out) {
         }
     } else if (is("url")) {
         spif_url_t x = (spif_url_t) o; const char *h = strtext(spif_url_get_host(x));
-        p = id_of(strtext(SPIF_STR(x)), T_URL, 2);
-        q = (h && (!strcmp(h, "zz1") || !strcmp(h, "zz2"))) ? id_of(h, T_HOSTSET, 2) : ((p > 0 && !h) ? 3 : 0);   /* 3: cleared */
-        if (p == 2) {   /* the other components of the long text must read back as parsed, in the original and in any copy */
+        p = id_of(strtext(SPIF_STR(x)), T_URL, 3);
+        q = (h && !strncmp(h, "zz", 2)) ? id_of(h, T_HOSTSET, 3) : ((p > 0 && !h) ? 9 : 0);   /* 9: cleared */
+        if (p == 3) {   /* the other components of the long text must read back as parsed, in the original and in any copy */
             const char *u = strtext(spif_url_get_user(x)), *pw = strtext(spif_url_get_passwd(x)), *pr = strtext(spif_url_get_proto(x));
             const char *po = strtext(spif_url_get_port(x)), *pa = strtext(spif_url_get_path(x)), *qu = strtext(spif_url_get_query(x));
             if (!u || strcmp(u, "u") || !pw || strcmp(pw, "pw") || !pr || strcmp(pr, "http") || !po || strcmp(po, "80")
@@ -79,7 +83,7 @@ static const char *project(int k, vh_sb *out) {
         if (p > 0 && q == 0 && (!h || strcmp(h, T_URLHOST_PARSED[p]))) { snprintf(invmsg, sizeof(invmsg), "url:%s_host=%s", k ? "b" : "a", h ? h : "NULL"); return invmsg; }
     } else {
         spif_regexp_t x = (spif_regexp_t) o; const char *t = strtext(SPIF_STR(x));
-        p = (t && *t) ? id_of(t, T_RE, 2) : 0;
+        p = (t && *t) ? id_of(t, T_RE, 3) : 0;
         q = (spif_regexp_get_flags(x) & PCRE_CASELESS) ? 1 : 0;
         if (spif_regexp_get_flags(x) & ~PCRE_CASELESS) return "regexp:unexpected_flag_bits";
     }
@@ -132,6 +136,18 @@ static const char *vh_step(const vh_step_t *st, vh_sb *ret, vh_sb *state) {
                       : is("tok") ? spif_tok_set_sep((spif_tok_t) S[k], (spif_str_t) NULL)
                       : spif_url_set_host((spif_url_t) S[k], (spif_str_t) NULL);
         sb_bool(ret, r);
+    } else if (OP("str_trim")) {
+        /* the PARENT class's mutator on a url / regexp */
+        sb_bool(ret, spif_str_trim(SPIF_STR(S[k])));
+    } else if (OP("str_round")) {
+        /* a parent-class mutator and its inverse: the value (and the class) is as before */
+        spif_str_t x = SPIF_STR(S[k]); const char *m = st->args[0]; spif_bool_t r1, r2; const char *ti;
+        if (!strcmp(m, "case")) { r1 = spif_str_upcase(x); if ((ti = check_type(S[k]))) return ti; r2 = spif_str_downcase(x); }
+        else if (!strcmp(m, "reverse")) { r1 = spif_str_reverse(x); if ((ti = check_type(S[k]))) return ti; r2 = spif_str_reverse(x); }
+        else if (!strcmp(m, "append")) { r1 = spif_str_append_char(x, 'Z'); if ((ti = check_type(S[k]))) return ti; r2 = spif_str_splice_from_ptr(x, -1, 1, (spif_charptr_t) NULL); }
+        else if (!strcmp(m, "prepend")) { r1 = spif_str_prepend_from_ptr(x, (spif_charptr_t) "Q"); if ((ti = check_type(S[k]))) return ti; r2 = spif_str_splice_from_ptr(x, 0, 1, (spif_charptr_t) NULL); }
+        else { spif_str_t y = mkstr("QQ"); r1 = spif_str_splice(x, 0, 0, y); spif_str_del(y); if ((ti = check_type(S[k]))) return ti; r2 = spif_str_splice_from_ptr(x, 0, 2, (spif_charptr_t) NULL); }
+        sb_bool(ret, r1 && r2);
     } else if (OP("set_flags")) {
         sb_bool(ret, spif_regexp_set_flags((spif_regexp_t) S[k], (spif_charptr_t) (a0 ? "i" : "")));
     } else if (OP("get_p") || OP("get_q")) {
